@@ -124,6 +124,11 @@ Theorem C36_paging_is_used : forall s tok lim,
 Proof. reflexivity. Qed.
 Print Assumptions C36_paging_is_used.
 
+(* the names it lists are distinct, so C36_paging applies to every directory-mode listing *)
+Theorem C36_dir_listing_nodup : forall s : state str, NoDup (dir_tables (dsk s)).
+Proof. intro s. apply dir_tables_nodup. Qed.
+Print Assumptions C36_dir_listing_nodup.
+
 (* ---------------------------------------------------------------- refuted parts (reproduced on the real code) *)
 
 (* F10. "Names that cannot be stored faithfully are rejected" is false: a name with `$` is accepted and
